@@ -29,15 +29,19 @@ SPEC = {
             "(X/B/W/D/L, overlapping, %I/%M areas, hierarchical, wildcard, ill-typed values) x fault policy x watchdog "
             "action x a 12-24 step history of cycle / clock advance / watchdog_timeout / simulation_fault / policy, "
             "watchdog and safe-state updates / queued debug I/O writes (also ill-typed) / restart warm|cold / "
-            "clear_fault; cases 0-3 are the hand-written corpus (witnesses of the repaired defect). "
-            "non-trivial = a fault was raised and at least one later cycle request was refused; "
+            "force_io / release_io (also ill-typed) / execution deadline in the past / clear_fault; one case in six "
+            "ends by handing the runtime to a real ResourceRunner thread (deterministic gate clock, watchdog "
+            "enabled/disabled with a 1 ns or 1 h timeout) and compares the thread's whole event log, final state and "
+            "last_error; cases 0-6 are the hand-written corpus (witnesses of the repaired defect, the central "
+            "scenarios). non-trivial = a fault was raised and at least one later cycle request was refused, or the "
+            "runner thread ended in Faulted; "
             "distinct = by hash of the case's operation lines",
     "trusted_base": [
         "Lean 4.33.0 kernel; axioms per theorem listed under 'theorems'",
         "hand-written model lean/TrustVerif/Model/C08.lean of execute_cycle / read_cycle_inputs / "
         "write_cycle_outputs / record_fault / apply_fault / apply_safe_state / IoSafeState::apply / "
-        "IoInterface::{read,write} / FaultDecision::{from_fault_policy,from_watchdog} / restart (latch part), "
-        "tied to the code by this run's correspondence",
+        "IoInterface::{read,write} / FaultDecision::{from_fault_policy,from_watchdog} / restart (latch part) / "
+        "one iteration of scheduler.rs run_resource_loop, tied to the code by this run's correspondence",
         "the application is abstract in the theorems (Sem: programs, plan, bindings, drivers, retain store are "
         "arbitrary functions); its concrete instance Conc (statement language of the generated programs, C06 "
         "scheduler model for the plan, binding coercions, scripted drivers) is only tested",
@@ -47,8 +51,11 @@ SPEC = {
     ],
     "assumptions": [
         "deterministic drivers/retain store (functions of their own state and the image they are handed)",
-        "no forced values (DebugControl::force_*) and no health sink; IoAddress.bit <= 7 as IoAddress::parse guarantees",
+        "forced variables (DebugControl::force_global/...) and the health sink are not modelled (forced I/O values are); "
+        "IoAddress.bit <= 7 as IoAddress::parse guarantees",
         "restart succeeds (its failure paths and what it does to variables are C09's subject)",
+        "the resource thread is modelled without pause/commands/restart signal; a post-cycle simulation error is "
+        "modelled as the code handles it (finding C08-runner-post-cycle) and excluded by the guard of the _partial theorems",
         "shared-global synchronisation (tick_with_shared / SharedGlobals) is another actor and not part of a cycle request",
     ],
 }
@@ -68,15 +75,20 @@ MANIFEST = {
                   "c08_cycle_safe_halt / c08_fault_op_safe (under a safe-state decision every entry whose value has the "
                   "size of its address and that no later entry overwrites reads back its value, every driver's last "
                   "received image is the final output image, and the deliveries precede the Fault report — with no "
-                  "assumption on driver results or on the other entries), c08_policy_table. Each run replays generated "
+                  "assumption on driver results or on the other entries), c08_policy_table, and for the resource thread "
+                  "c08_runner_{iter,loop,safe}_partial (the thread never cycles a faulted runtime, ends in Faulted with the "
+                  "fault latched and the safe image delivered) under the guard 'no post-cycle simulation error', with "
+                  "c08_counterexample_post_cycle showing the guard is needed (known finding, replayed each run). Each run replays generated "
                   "fault histories on the real Runtime (compiled from ST source by the real compiler) and on the model and "
                   "compares every observable after every operation.",
     "level_note": "Trusted: Lean kernel + propext/Quot.sound/Classical.choice; the hand-written model (validated only by "
                   "the differential run, whose generator bounds what it sees: histories of 12-24 operations, <= 3 drivers, "
                   "<= 4 programs). Only tested, not proved: the concrete statement language / scheduler / coercions used to "
-                  "replay cases (the theorems do not depend on them). Not modelled: ResourceRunner's thread loop (it stops "
-                  "calling execute_cycle after the first error unless the policy is restart), forced values, the health "
-                  "sink, SharedGlobals synchronisation, hierarchical addresses never reach a driver (C07). The defect of "
+                  "replay cases (the theorems do not depend on them). Not modelled: pause/commands/restart signal and the "
+                  "simulation controller of the resource thread (only the result of apply_post_cycle), forced variables, "
+                  "the health sink, SharedGlobals synchronisation; hierarchical addresses never reach a driver (C07). Open "
+                  "finding C08-runner-post-cycle: a post-cycle simulation error ends the thread in Faulted without "
+                  "apply_fault (no latch, no safe state). The defect of "
                   "DESIGN.md §7 #8 (safe state stopped at the first failing address/driver) is repaired in /repo (9aab78e); "
                   "its witnesses are cases 0 and 1 of the corpus.",
 }
